@@ -77,6 +77,11 @@ MODS = {
     "function p.et(frame) return frame:expandTemplate{title='a', args={'z'}} end\n"
     "function p.tag(frame) return frame:extensionTag('nowiki', 'x') end\n"
     "function p.loop(frame) while true do end end\n"
+    # a Python exception raised inside a frame callback and swallowed by pcall: entries pushed below the callback stay on the
+    # path until call_lua_sandbox restores the saved depth
+    "function p.ppbad(frame) local ok = pcall(function() return frame:preprocess('{{padleft:x|' .. string.rep('9', 5000) .. '}}') end); return ok and 'ok' or 'caught' end\n"
+    "function p.etbad(frame) local ok = pcall(function() return frame:extensionTag('ref', 'x', {5}) end); return ok and 'ok' or 'caught' end\n"
+    "function p.argbad(frame) local ok = pcall(function() return frame.args[1] end); return ok and 'ok' or 'caught' end\n"
     "return p",
 }
 TEMPLATES = {
@@ -107,6 +112,7 @@ DOCS = [
     "{{#invoke:m}}", "{{#invoke:nomod|f}}", "{{inv|z}}", "{{deep|k}}", "{{{arg|def}}}", "{{{arg}}}", "[[link|{{a}}]] [http://x {{a}}]",
     "<nowiki>{{a}}</nowiki>", "{{a|{{#invoke:m|f}}}}", "{{ {{a}} }}", "{{lc:ABC}}{{PAGENAME}}", "{{#tag:span|x}}",
     "{{subst:a}}{{safesubst:b|1}}", "{{#unknownfn:x}}", "{{a|b=c|1=d}}",
+    "{{#invoke:m|ppbad}}", "{{#invoke:m|etbad}}", "{{#invoke:m|argbad|{{padleft:x|" + "9" * 5000 + "}}}}", "{{#invoke:m|f|{{padleft:x|" + "9" * 5000 + "}}}}",
 ]
 REDIRECTS = {"redir": "Template:a", "redir2": "Template:missing-target", "redirempty": "Template:empty"}
 MAINPAGES = [("Mainpage", 0, "main {{a}}"), ("Emptypage", 0, "")]
